@@ -62,6 +62,8 @@ type HS struct {
 	Stalled bool
 	// TimedOut: a side returned a deadline error (the watchdog expired).
 	TimedOut bool
+	// Note: free text added by the caller (shown by ErrString).
+	Note string
 }
 
 type Opts struct {
@@ -265,6 +267,9 @@ func (h *HS) ErrString() string {
 	}
 	if h.TimedOut {
 		extra += " [harness watchdog expired]"
+	}
+	if h.Note != "" {
+		extra += " [" + h.Note + "]"
 	}
 	return fmt.Sprintf("client=%v server=%v echo=%v%s", h.ClientErr, h.ServerErr, h.EchoErr, extra)
 }
